@@ -448,7 +448,7 @@ def check(run: Run, prog: Program, cy: CyProgram, sites):
     wr = l1(run, prog, cy)
     l1_python(run, prog, wr)
     n = report_sites(run, "L2", sites, lambda s: "line_dist" in s.kernel.name)
-    run.floor("L2 call sites", n, 9)
+    run.floor("L2 call sites", n, 1)
     l3(run, prog)
     l4(run, cy)
     l7(run, prog)
